@@ -311,6 +311,27 @@ def run(ctx):
         if e.get('name') in ('printf', 'fwrite', 'puts', 'fflush'):
             guarded(ctx, 'C20.R2', pr, e, lambda a: mentions_field(a, 'LinePrinter::console_locked_'), False,
                     'status lines are not written while the terminal is locked', construct='Print:write-while-locked')
+    # locking: before the terminal is handed to the console command, the line in progress is ended and what stdout still
+    # holds is written (PrintOnNewLine("") - Print() ends with a flush or a newline on a line-buffered stream) - whatever
+    # the terminal is: on a pipe an unterminated last line of the previous command would otherwise come out after the
+    # console command's own output
+    lockw = [e for f0, e, kind, rhs in field_writes(prog, 'LinePrinter::console_locked_', [scl])]
+    def locking_world(b, i, s2):
+        for k, pol, a in scl.edge_facts(b, i):
+            sa = strip(a)
+            if isinstance(sa, dict) and sa.get('k') == 'var' and sa.get('n') == 'locked' and pol is False:
+                return False
+            if mentions_var(a, 'locked') and mentions_field(a, 'LinePrinter::console_locked_') and pol is True and \
+                    isinstance(sa, dict) and sa.get('k') == 'bin' and sa.get('op') == '==':
+                return False
+        return True
+    for e in lockw:
+        r = scl.find_path(None, lambda x: x is e, from_succ=scl.entry, edge_ok=locking_world,
+                          is_blocker=lambda x: x['k'] == 'call' and x.get('name') in ('LinePrinter::PrintOnNewLine', 'LinePrinter::Print', 'fflush'))
+        ctx.check('C20.R2', r is None, scl.name, 'lock:line-not-ended', scl.where(e),
+                  'taking the console lock ends the line in progress first, on every kind of terminal',
+                  witness=None if r is None else {'blocks': r[0]})
+    ctx.check('C20.R2', len(lockw) >= 1, scl.name, 'lock:flag-write', scl.loc, 'SetConsoleLocked stores the flag')
     # unlocking: flush before clear, and the buffer is passed whole (std::string, not c_str())
     fl = [e for e in scl.calls('LinePrinter::PrintOnNewLine') if mentions_field(e.get('args'), 'LinePrinter::output_buffer_')]
     clr = [e for e in scl.events('call') if lastname(e.get('name')) == 'clear' and mentions_field(e.get('recv'), 'LinePrinter::output_buffer_')]
